@@ -41,9 +41,15 @@ echo "== demo WITHOUT change" >> "$LOG"
 git apply "$B/out/patch.diff" || echo "RE-APPLY FAILED" >> "$LOG"
 unset CARGO_TARGET_DIR
 cd /verif || exit 2
+# run the check against the patch applied to /repo's CURRENT head (hooks/fixes may have been added since the seed's worktree was made)
+WH=$B/wt-head
+git -C /repo worktree remove --force "$WH" 2>/dev/null
+git -C /repo worktree add -q "$WH" HEAD
+if git -C "$WH" apply "$B/out/patch.diff" 2>>"$LOG"; then CW="$WH"; echo "== patch applied to current /repo HEAD $(git -C /repo rev-parse --short HEAD)" >> "$LOG"; else CW="$WT"; echo "== PATCH DOES NOT APPLY to current HEAD; using the seed's own worktree" >> "$LOG"; fi
 for P in "$PID" "$@"; do
-  echo "== VERIF_REPO=$WT ./check $P" >> "$LOG"
-  VERIF_REPO="$WT" ./check "$P" 2>&1 | grep -E "^\[check|^VIOLATION|^KNOWN" >> "$LOG"
+  echo "== VERIF_REPO=$CW ./check $P" >> "$LOG"
+  VERIF_REPO="$CW" ./check "$P" 2>&1 | grep -E "^\[check|^VIOLATION|^KNOWN|^--- .* failed" >> "$LOG"
 done
+git -C /repo worktree remove --force "$WH" 2>/dev/null
 echo "== done" >> "$LOG"
 cat "$LOG"
